@@ -80,7 +80,7 @@ TRUSTED = ['z3 nonlinear arithmetic and quantifier instantiation']
 
 
 def tasks(tier):
-    t = ['arith', 'stencil', 'cellsize', 'bounds', 'ncells', 'sound', 'update', 'cache', 'cellkey', 'octroot', 'pidspace', 'sortkeys', 'context', 'query', 'complete', 'list', 'repoint', 'zrows', 'sortseg', 'sortflag',
+    t = ['arith', 'stencil', 'cellsize', 'bounds', 'ncells', 'sound', 'update', 'cache', 'cellkey', 'octroot', 'pidspace', 'sortkeys', 'eshreach', 'boxes27', 'sentinel', 'sortnbrs', 'shreach', 'pidslices', 'context', 'query', 'complete', 'list', 'repoint', 'zrows', 'sortseg', 'sortflag',
             'lemma', 'oracle']
     return t + ['canary']
 
@@ -1529,7 +1529,13 @@ def task_cellkey(ctx, repo):
                         'self')
         me2.module = mt
         ex2 = Executor(repo, mt, qualname=cls + '._bin', merge=False)
-        for nm_, f_ in (('log2', log2_model), ('c_cast', c_cast_real)):
+        def ceil_real(e, s_, a, k_, nn):
+            c = z3.Int('ceil_%d' % len(logs))
+            v = S.to_real(a[0])
+            s_.pc.append(z3.And(z3.ToReal(c) - 1 < v, v <= z3.ToReal(c)))
+            return c
+        for nm_, f_ in (('log2', log2_model), ('c_cast', c_cast_real),
+                        ('ceil', ceil_real)):
             ex2.spec_env[nm_] = Native(f_)
         outs2 = ex2.exec_function(mt.methods(cls)['_bin'], dict(
             self=me2, pa_index=0, indices=('indices',)),
@@ -1589,7 +1595,7 @@ bad = None
 rng = np.random.RandomState(0)
 # (a) aspect ratios (the y field is decoded with its own width), (b) a 2D
 # lattice of 65536 particles on 253 x 253 cells (the four fields need 33 bits)
-cases = [('tall 2D', 2, 400, (1.0, 6.0, 0.0), 0.1), ('tall 3D', 3, 500, (1.0, 5.0, 2.0), 0.15), ('wide 3D', 3, 500, (6.0, 1.0, 2.0), 0.15)]
+cases = [('257 particles (2^8 + 1: the largest id needs 9 bits)', 2, 257, (1.0, 1.0, 0.0), 0.08), ('tall 2D', 2, 400, (1.0, 6.0, 0.0), 0.1), ('tall 3D', 3, 500, (1.0, 5.0, 2.0), 0.15), ('wide 3D', 3, 500, (6.0, 1.0, 2.0), 0.15)]
 for name, dim, n_, box, h in cases:
     x = rng.rand(n_) * box[0]; y = rng.rand(n_) * box[1]; z = rng.rand(n_) * box[2]
     pa = get_particle_array(name='a', x=x, y=y, z=z, h=h)
@@ -1821,6 +1827,26 @@ for nt in (1, 2, 8):
                            note='tree built with %d OpenMP thread(s), variable h' % nt); break
         if bad: break
     if bad: break
+if bad is None:
+    # a root octant with fewer particles than a leaf holds, followed by
+    # another non-empty octant: the children's slices of the pid array must
+    # stay disjoint (the ordered index list is a permutation)
+    from cyarray.api import LongArray
+    g = np.mgrid[0:8, 0:8, 0:8].reshape(3, -1).T * 0.125 + 0.0625
+    hi = (g[:, 0] > 0.5) & (g[:, 1] > 0.5)
+    keep = ~hi
+    lo6 = np.where(hi & (g[:, 2] < 0.5))[0][:3]; lo7 = np.where(hi & (g[:, 2] > 0.5))[0][:4]
+    keep[lo6] = True; keep[lo7] = True
+    P = g[keep]
+    for nt in (1, 4):
+        set_number_of_threads(nt)
+        pa = get_particle_array(name='a', x=P[:, 0], y=P[:, 1], z=P[:, 2], h=0.08)
+        nn = nnps.OctreeNNPS(dim=3, particles=[pa], radius_scale=2.0)
+        ind = LongArray(); nn.get_spatially_ordered_indices(0, ind)
+        got = sorted(ind.get_npy_array().tolist())
+        if got != list(range(len(P))):
+            bad = dict(algorithm='OctreeNNPS', threads=nt, problem='spatially ordered indices are not a permutation', n=len(P),
+                       missing=sorted(set(range(len(P))) - set(got))[:6]); break
 set_number_of_threads(1)
 print(json.dumps(dict(bad=bad)))
 '''
@@ -2038,6 +2064,713 @@ def replay_reorder_then_query(model, ob):
                     'tree; re-order, update, query against the definition',
                     **r['bad'])
     return dict(reproduced=False)
+
+
+# ----------------------------------------------------------------- eshreach
+def task_eshreach(ctx, repo):
+    """ExtendedSpatialHashNNPS._neighbor_boxes, for an arbitrary entry
+    (s, t, u) of the offset mask: the sub-cell at the query's sub-cell +
+    (s, t, u) is handed to the search iff its indices are non-negative, it
+    is occupied, and max(|s|,|t|,|u|) <= ceil(R / h_sub) with
+    R = radius_scale * max(h of the query, largest h in that sub-cell);
+    glue lemma (reals + floor): a source particle of that sub-cell that must
+    be found -- distance below radius_scale * max(h_query, h_source),
+    h_source <= the sub-cell's h_max -- lies within that many sub-cells along
+    every axis, so no box holding a true neighbour is pruned."""
+    rel = 'pysph/base/spatial_hash_nnps.pyx'
+    m = repo.cython_module(rel)
+    W_ = m.path
+    cls = 'ExtendedSpatialHashNNPS'
+    fn = m.methods(cls)['_neighbor_boxes']
+    i, j, k = z3.Int('ci'), z3.Int('cj'), z3.Int('ck')
+    s_, t_, u_ = z3.Int('ms'), z3.Int('mt'), z3.Int('mu')
+    h, rs, hsub, hmax = (z3.Real(x) for x in ('h_query', 'radius_scale',
+                                               'h_sub', 'cell_h_max'))
+    obs = []
+    for occupied in (True, False):
+        cell = SymObject(None, dict(h_max=hmax), 'cell') if occupied else None
+        asked = []
+        table = SymObject(None, dict(get=Native(
+            lambda e, st, a, kw, nd: (asked.append(list(a)), cell)[1])),
+            'current_hash')
+        obj = SymObject(cls, dict(H=z3.Int('Hdiv'), approximate=False,
+                                  current_hash=table, radius_scale=rs,
+                                  h_sub=hsub), 'self')
+        obj.module = m
+
+        def mask_c(e, st, a, kw, nd):
+            a[1][0], a[2][0], a[3][0] = s_, t_, u_
+            return 1
+        ex = Executor(repo, m, qualname=cls + '._neighbor_boxes',
+                      merge=False, prune=True, contracts={
+                          cls + '._h_mask_exact': CalleeContract(mask_c),
+                          cls + '._h_mask_approx': CalleeContract(mask_c)})
+        ex.spec_env['malloc'] = Native(lambda e, st, a, kw, nd: [None])
+        ex.spec_env['free'] = Native(lambda e, st, a, kw, nd: None)
+        ex.spec_env['sizeof_type'] = 4
+        ex.spec_env['fmax'] = Native(lambda e, st, a, kw, nd: z3.If(
+            S.to_real(a[0]) >= S.to_real(a[1]), S.to_real(a[0]),
+            S.to_real(a[1])))
+
+        ex.spec_env['fmin'] = Native(lambda e, st, a, kw, nd: z3.If(
+            S.to_real(a[0]) <= S.to_real(a[1]), S.to_real(a[0]),
+            S.to_real(a[1])))
+
+        def ceil_c(e, st, a, kw, nd):
+            c = S.fresh('ceil', 'int')
+            v = S.to_real(a[0])
+            st.pc.append(z3.And(z3.ToReal(c) - 1 < v, v <= z3.ToReal(c)))
+            return c
+        ex.spec_env['ceil'] = Native(ceil_c)
+        out = [[z3.Int('x_out0')], [z3.Int('y_out0')], [z3.Int('z_out0')]]
+        pre = [rs > 0, hsub > 0, h > 0, hmax > 0, i >= 0, j >= 0, k >= 0]
+        try:
+            outs = ex.exec_function(fn, dict(
+                self=obj, i=i, j=j, k=k, x=out[0], y=out[1], z=out[2], h=h),
+                State(pc=list(pre)))
+        except VCError as e:
+            ctx.outside('eshreach', str(e))
+            return
+        if occupied:
+            ctx.function(m, fn, cls + '._neighbor_boxes', ex.dropped)
+        R = rs * z3.If(hmax >= h, hmax, h)
+        cR = z3.Int('ceil_R')
+        cdef_ = z3.And(z3.ToReal(cR) - 1 < R / hsub, R / hsub <= z3.ToReal(cR))
+        absv = lambda v: z3.If(v >= 0, v, -v)
+        want = z3.And(i + s_ >= 0, j + t_ >= 0, k + u_ >= 0, absv(s_) <= cR,
+                      absv(t_) <= cR, absv(u_) <= cR)
+        for n_, o in enumerate(outs):
+            ret = S.to_z3(o.value)
+            if occupied:
+                obs.append(Obligation('eshreach.kept_iff_within_reach.%d' % n_,
+                                      o.pc + [cdef_], (ret == 1) == want, W_))
+                obs.append(Obligation('eshreach.count.%d' % n_, o.pc,
+                                      z3.Or(ret == 0, ret == 1), W_))
+                fx, fy, fz = (o.state.env[a_][0] for a_ in 'xyz')
+                obs.append(Obligation('eshreach.box.%d' % n_,
+                                      o.pc + [ret == 1], z3.And(
+                                          S.to_z3(fx) == i + s_,
+                                          S.to_z3(fy) == j + t_,
+                                          S.to_z3(fz) == k + u_), W_))
+            else:
+                obs.append(Obligation('eshreach.empty_cell_skipped.%d' % n_,
+                                      o.pc, ret == 0, W_))
+        if not outs:
+            obs.append(Obligation('eshreach.nopath', [], z3.BoolVal(False),
+                                  W_))
+    # glue lemma, one axis: query coordinate xq in sub-cell cq, source
+    # coordinate xs in sub-cell cs (floor of coordinate / h_sub)
+    xq, xs, hs = z3.Real('xq'), z3.Real('xs'), z3.Real('h_source')
+    cq, cs = z3.Int('cq'), z3.Int('cs')
+    cR = z3.Int('ceil_R')
+    R = rs * z3.If(hmax >= h, hmax, h)
+    hyp = [rs > 0, hsub > 0, h > 0, hs > 0, hs <= hmax,
+           z3.ToReal(cq) * hsub <= xq, xq < (z3.ToReal(cq) + 1) * hsub,
+           z3.ToReal(cs) * hsub <= xs, xs < (z3.ToReal(cs) + 1) * hsub,
+           z3.ToReal(cR) - 1 < R / hsub, R / hsub <= z3.ToReal(cR),
+           z3.Or(z3.And(xs - xq < rs * h, xq - xs < rs * h),
+                 z3.And(xs - xq < rs * hs, xq - xs < rs * hs))]
+    obs.append(Obligation('eshreach.lemma.true_neighbour_is_within_reach',
+                          hyp, z3.And(cs - cq <= cR, cq - cs <= cR), W_))
+    ctx.prove('eshreach.no_box_with_a_true_neighbour_is_pruned',
+              z3only(obs, 60000), use_nf=False,
+              replay=replay_oracle(['hvar', 'hdiff'], algs=(
+                  'ExtendedSpatialHashNNPS',), knobs=True))
+
+
+# ------------------------------------------------------------------ boxes27
+def task_boxes27(ctx, repo):
+    """SpatialHashNNPS / CellIndexingNNPS._neighbor_boxes(i, j, k, x, y, z):
+    the cells handed to the search are exactly the (up to 27) cells
+    (i+a, j+b, k+c), a, b, c in {-1, 0, 1}, with non-negative indices, each
+    once, written to the same slot of x, y and z; the count returned is
+    their number, for every cell index (per axis: 0 or any index >= 1).
+    (With the stencil lemma: a true neighbour is at most one cell away along
+    every axis.)"""
+    obs = []
+    for rel, cls in (('pysph/base/spatial_hash_nnps.pyx', 'SpatialHashNNPS'),
+                     (CI_PYX, 'CellIndexingNNPS')):
+        m = repo.cython_module(rel)
+        W_ = m.path
+        fn = m.methods(cls)['_neighbor_boxes']
+        ci, cj, ck = z3.Int('ci'), z3.Int('cj'), z3.Int('ck')
+        for pat in [(a, b, c) for a in (0, 1) for b in (0, 1)
+                    for c in (0, 1)]:
+            # per axis: the cell index is 0 (boundary) or any index >= 1
+            pre = [(v == 0) if bit == 0 else (v >= 1)
+                   for v, bit in zip((ci, cj, ck), pat)]
+            X, Y, Z = [None] * 27, [None] * 27, [None] * 27
+            obj = SymObject(cls, {}, 'self')
+            obj.module = m
+            ex = Executor(repo, m, qualname=cls + '._neighbor_boxes',
+                          merge=False, prune=True)
+            try:
+                outs = ex.exec_function(fn, dict(self=obj, i=ci, j=cj, k=ck,
+                                                 x=X, y=Y, z=Z),
+                                        State(pc=list(pre)))
+            except VCError as e:
+                ctx.outside('boxes27.%s' % cls, str(e))
+                break
+            offs = [(a, b, c) for a in (-1, 0, 1) for b in (-1, 0, 1)
+                    for c in (-1, 0, 1)
+                    if (pat[0] or a >= 0) and (pat[1] or b >= 0) and
+                    (pat[2] or c >= 0)]
+            tag = 'boxes27.%s.%s' % (cls, ''.join('0' if b_ == 0 else 'p'
+                                                   for b_ in pat))
+            if len(outs) != 1 or not isinstance(outs[0].value, int):
+                obs.append(Obligation(tag + '.one_path', [],
+                                      z3.BoolVal(False), W_))
+                continue
+            o = outs[0]
+            n_ = o.value
+            xs, ys, zs = (o.state.env[a_] for a_ in 'xyz')
+            obs.append(Obligation(tag + '.count', [], z3.BoolVal(
+                n_ == len(offs) and all(v is None for v in xs[n_:])), W_,
+                extra=dict(returned=n_, expected=len(offs))))
+            if n_ != len(offs):
+                continue
+            got = [(S.to_z3(xs[q]), S.to_z3(ys[q]), S.to_z3(zs[q]))
+                   for q in range(n_)]
+            goals = []
+            for g in got:
+                goals.append(z3.Or(*[z3.And(g[0] == ci + a, g[1] == cj + b,
+                                            g[2] == ck + c)
+                                     for (a, b, c) in offs]))
+            for q1 in range(n_):
+                for q2 in range(q1 + 1, n_):
+                    goals.append(z3.Or(got[q1][0] != got[q2][0],
+                                       got[q1][1] != got[q2][1],
+                                       got[q1][2] != got[q2][2]))
+            obs.append(Obligation(tag + '.exactly_the_adjacent_cells', o.pc,
+                                  z3.And(*goals), W_))
+        else:
+            ctx.function(m, fn, cls + '._neighbor_boxes')
+    ctx.prove('boxes27.exactly_the_adjacent_cells', z3only(obs),
+              use_nf=False)
+
+
+# ----------------------------------------------------------------- sentinel
+def task_sentinel(ctx, repo):
+    """The z-order / stratified-SFC tables mark "no such cell" by -1
+    (key_to_idx and nbr_boxes are filled with -1 on refresh; index 0 is the
+    first, lowest-key cell and perfectly valid).  Every test of a table
+    lookup result (`found_idx`, `start_idx`) compares it with that marker
+    only: `== -1`, `!= -1` or `< 0` -- never `> 0`, `>= 1`, truthiness."""
+    obs = []
+    nsites = 0
+    for rel in ('pysph/base/z_order_nnps.pyx',
+                'pysph/base/stratified_sfc_nnps.pyx'):
+        m = repo.cython_module(rel)
+        W_ = m.path
+        # the marker the tables are initialised with
+        # initialising loops:  for v in range(..): table[v] = <constant>
+        inits = []
+        for cn in m.classes:
+            for f in m.methods(cn).values():
+                for lp in ast.walk(f):
+                    if isinstance(lp, ast.For) and isinstance(
+                            lp.target, ast.Name) and len(lp.body) == 1 and \
+                            isinstance(lp.body[0], ast.Assign):
+                        a_ = lp.body[0]
+                        t_ = a_.targets[0]
+                        if isinstance(t_, ast.Subscript) and isinstance(
+                                t_.slice, ast.Name) and \
+                                t_.slice.id == lp.target.id and \
+                                ast.unparse(t_.value).replace(
+                                    'deref(', '').rstrip(')') in (
+                                    'current_key_to_idx',
+                                    'current_nbr_boxes'):
+                            inits.append(ast.unparse(a_.value))
+        obs.append(Obligation('sentinel.%s.tables_start_at_minus_one' %
+                              rel.split('/')[-1], [], z3.BoolVal(
+                                  bool(inits) and set(inits) == {'-1'}), W_,
+                              extra=dict(initialisers=str(inits)[:200])))
+        for cn in sorted(m.classes):
+            for fname, fn in sorted(m.methods(cn).items()):
+                bad, n_here = [], 0
+                for node in ast.walk(fn):
+                    # bare truth tests
+                    if isinstance(node, (ast.If, ast.While, ast.IfExp)) and \
+                            isinstance(node.test, ast.Name) and \
+                            node.test.id in ('found_idx', 'start_idx'):
+                        bad.append(ast.unparse(node.test))
+                    if not isinstance(node, ast.Compare):
+                        continue
+                    names = [x.id for x in [node.left] + node.comparators
+                             if isinstance(x, ast.Name)]
+                    if not any(n_ in ('found_idx', 'start_idx')
+                               for n_ in names):
+                        continue
+                    n_here += 1
+                    txt = ast.unparse(node).replace(' ', '')
+                    if txt not in ('found_idx!=-1', 'found_idx==-1',
+                                   'start_idx<0', 'start_idx==-1',
+                                   'start_idx!=-1', 'found_idx<0',
+                                   'found_idx>=0', 'start_idx>=0'):
+                        bad.append(ast.unparse(node))
+                if n_here or bad:
+                    nsites += n_here
+                    ctx.function(m, fn, '%s.%s' % (cn, fname))
+                    obs.append(Obligation(
+                        'sentinel.%s.%s' % (cn, fname), [],
+                        z3.BoolVal(not bad), W_,
+                        extra=dict(tests_against_something_else=bad[:4])))
+    obs.append(Obligation('sentinel.sites_found', [],
+                          z3.BoolVal(nsites >= 6), 'lookup tests',
+                          extra=dict(sites=nsites)))
+    ctx.prove('sentinel.lookups_are_tested_against_the_empty_marker', obs)
+
+
+# ----------------------------------------------------------------- sortnbrs
+class _CppVector(object):
+    """std::vector with value semantics for its elements"""
+
+    def __init__(self, name):
+        self.name, self.items = name, []
+
+    def vc_clone(self, memo, _c=None):
+        if id(self) in memo:
+            return memo[id(self)]
+        c = _CppVector(self.name)
+        c.items = [(_copy_pair(x) if isinstance(x, SymObject) else x)
+                   for x in self.items]
+        memo[id(self)] = c
+        return c
+
+    def vc_getattr(self, a, ex, st, node):
+        if a == 'resize':
+            def rs(e, s_, ar, kw, nd):
+                if not isinstance(ar[0], int):
+                    raise VCError('vector.resize(symbolic)')
+                self.items = [None] * ar[0]
+            return Native(rs)
+        if a in ('begin', 'end'):
+            return Native(lambda e, s_, ar, kw, nd: ('iter', self, a))
+        raise VCError('vector.%s' % a)
+
+    def vc_getitem(self, idx, ex, st, node):
+        if not isinstance(idx, int) or not 0 <= idx < len(self.items):
+            raise VCError('vector index')
+        if self.items[idx] is None:
+            raise VCError('read of an unset vector element')
+        return self.items[idx]
+
+    def vc_setitem(self, idx, v, ex, st, node):
+        if not isinstance(idx, int) or not 0 <= idx < len(self.items):
+            raise VCError('vector index')
+        self.items[idx] = _copy_pair(v) if isinstance(v, SymObject) else v
+
+
+def _copy_pair(p):
+    return SymObject(None, dict(p.attrs), p.name)
+
+
+def task_sortnbrs(ctx, repo):
+    """NNPS._sort_neighbors(nbrs, length, gids), the shared sort_gids helper,
+    for segments of length 0..3 (std::sort assumed to return a permutation
+    ordered by the comparison): afterwards nbrs[0:length] is a permutation of
+    the LOCAL INDICES it held before, in increasing index order when the
+    array has no global ids (gids[0] == UINT_MAX) and in non-decreasing gid
+    order otherwise; nothing beyond the segment is written."""
+    import itertools
+    m = repo.cython_module(NB)
+    W_ = m.path
+    fn = m.methods('NNPS')['_sort_neighbors']
+    ctx.function(m, fn, 'NNPS._sort_neighbors')
+    G = z3.Function('gid_of', z3.IntSort(), z3.IntSort())
+    obs = []
+    for L in (0, 1, 2, 3):
+        for has_gids in (False, True):
+            nb0 = [z3.Int('nbr%d' % q) for q in range(L)] + [z3.Int('guard')]
+            nbrs = list(nb0)
+
+            class Gids(object):
+                def vc_getitem(self, idx, ex, st, node):
+                    return G(S.to_z3(idx))
+
+                def vc_clone(self, memo, _c=None):
+                    return self
+            ids, data = _CppVector('_ids'), _CppVector('_data')
+            entry = SymObject(None, dict(first=None, second=None), '_entry')
+            fresh = []
+
+            def sort_c(e, st, a, kw, nd):
+                vec = a[0][1]
+                old = list(vec.items)
+                n_ = len(old)
+                by_gid = len(a) > 2
+                new = []
+                for q in range(n_):
+                    if by_gid:
+                        o_ = SymObject(None, dict(
+                            first=z3.Int('s_first%d' % q),
+                            second=z3.Int('s_second%d' % q)), 'sorted')
+                    else:
+                        o_ = z3.Int('s_id%d' % q)
+                    new.append(o_)
+                # a permutation of the old elements ...
+                alts = []
+                for perm in itertools.permutations(range(n_)):
+                    c = []
+                    for q, r in enumerate(perm):
+                        if by_gid:
+                            c += [new[q].attrs['first'] ==
+                                  S.to_z3(old[r].attrs['first']),
+                                  new[q].attrs['second'] ==
+                                  S.to_z3(old[r].attrs['second'])]
+                        else:
+                            c.append(new[q] == S.to_z3(old[r]))
+                    alts.append(z3.And(*c) if c else z3.BoolVal(True))
+                st.pc.append(z3.Or(*alts))
+                # ... in non-decreasing order of the key
+                for q in range(n_ - 1):
+                    if by_gid:
+                        st.pc.append(new[q].attrs['second'] <=
+                                     new[q + 1].attrs['second'])
+                    else:
+                        st.pc.append(new[q] <= new[q + 1])
+                vec.items = new
+            ex = Executor(repo, m, qualname='NNPS._sort_neighbors',
+                          merge=False, prune=True)
+            ex.spec_env.update(_ids=ids, _data=data, _entry=entry,
+                               UINT_MAX=UINT_MAX, sort=Native(sort_c),
+                               _compare_gids='cmp',
+                               addr_of=Native(lambda e, st, a, kw, nd: a[0]))
+            obj = SymObject('NNPS', {}, 'self')
+            obj.module = m
+            pre = [(G(0) != UINT_MAX) if has_gids else (G(0) == UINT_MAX)]
+            try:
+                outs = ex.exec_function(fn, dict(self=obj, nbrs=nbrs,
+                                                 length=L, gids=Gids()),
+                                        State(pc=pre))
+            except VCError as e:
+                ctx.outside('sortnbrs', str(e))
+                return
+            tag = 'sortnbrs.len%d.%s' % (L, 'gids' if has_gids else 'nogids')
+            if not outs:
+                obs.append(Obligation(tag + '.nopath', [], z3.BoolVal(False),
+                                      W_))
+            for q_, o in enumerate(outs):
+                fin = o.state.env['nbrs']
+                fz = [S.to_z3(v) for v in fin]
+                perm_ok = z3.Or(*[z3.And(*[fz[q] == nb0[r]
+                                          for q, r in enumerate(perm)])
+                                  if L else z3.BoolVal(True)
+                                  for perm in itertools.permutations(
+                                      range(L))])
+                if has_gids:
+                    order = z3.And(*[G(fz[q]) <= G(fz[q + 1])
+                                     for q in range(L - 1)]) if L > 1 else \
+                        z3.BoolVal(True)
+                else:
+                    order = z3.And(*[fz[q] <= fz[q + 1]
+                                     for q in range(L - 1)]) if L > 1 else \
+                        z3.BoolVal(True)
+                obs.append(Obligation('%s.%d' % (tag, q_), o.pc, z3.And(
+                    perm_ok, order, fz[L] == nb0[L]), W_))
+    ctx.prove('sortnbrs.segment_is_permuted_into_gid_order', z3only(obs),
+              use_nf=False, replay=replay_sorted_gids)
+
+
+SORTED_GIDS = r"""
+import json, sys
+d = json.load(sys.stdin)
+if d.get('built'): sys.path.insert(0, d['built'])
+import numpy as np
+from pysph.base.utils import get_particle_array
+from pysph.base import nnps
+from cyarray.api import UIntArray
+rng = np.random.RandomState(2)
+bad = None
+n = 80
+for cls in ('LinkedListNNPS', 'SpatialHashNNPS', 'OctreeNNPS', 'CellIndexingNNPS'):
+    for cache in (False, True):
+        x, y = rng.rand(n), rng.rand(n)
+        pa = get_particle_array(name='a', x=x, y=y, h=0.12)
+        pa.gid[:] = 1000 + rng.permutation(n)          # a real global numbering, different from the local index
+        nn = getattr(nnps, cls)(dim=2, particles=[pa], sort_gids=True, cache=cache)
+        nb = UIntArray()
+        for i in range(n):
+            nn.get_nearest_particles(0, 0, i, nb)
+            ids = nb.get_npy_array().tolist()
+            d2 = (x - x[i])**2 + (y - y[i])**2
+            want = set(np.where(d2 < 0.24**2)[0].tolist())
+            if set(ids) != want or any(j >= n for j in ids):
+                bad = dict(algorithm=cls, cache=cache, particle=i, returned=ids[:10], expected_set=sorted(want)[:10], note='gids 1000..1079: the list must hold local indices'); break
+            g = pa.gid[ids].astype(np.int64)
+            if not np.all(np.diff(g) >= 0):
+                bad = dict(algorithm=cls, cache=cache, particle=i, gids_of_returned=g.tolist()[:10]); break
+        if bad: break
+    if bad: break
+print(json.dumps(dict(bad=bad)))
+"""
+
+
+def replay_sorted_gids(model, ob):
+    if os.environ.get('PYVC_NO_BUILD_REPLAY'):
+        return dict(reproduced=False, note='build replay disabled')
+    try:
+        tree, msg = native.shared_build()
+        if tree is None:
+            return dict(reproduced=False, note=msg)
+        r = native.run_venv(SORTED_GIDS, dict(built=tree), timeout=900,
+                            cwd='/tmp')
+    except Exception as e:
+        return dict(reproduced=False, note=str(e)[-300:])
+    if r['bad']:
+        return dict(reproduced=True, how='extensions built from the working '
+                    'tree; sort_gids=True with real global ids', **r['bad'])
+    return dict(reproduced=False)
+
+
+# ------------------------------------------------------------------ shreach
+def task_shreach(ctx, repo):
+    """StratifiedHashNNPS.find_nearest_neighbors, per level: the cells of a
+    level have size hmax_level / self.H (the size handed to
+    find_cell_id_raw), and the number of cell layers searched around the
+    query's cell, times that size, covers the needed radius
+    max(radius_scale * h_query, hmax_level):
+          layers * (hmax_level / H) >= max(radius_scale*h, hmax_level)
+    (abstracting executor: loops cut, the calls are observed on every
+    path)."""
+    from pyvc.abstract import AbstractExecutor
+    from pyvc.symexec import _FuncRef
+    rel = 'pysph/base/stratified_hash_nnps.pyx'
+    m = repo.cython_module(rel)
+    pxd = repo.cython_module(PXD)
+    W_ = m.path
+    cls = 'StratifiedHashNNPS'
+    fn = m.methods(cls)['find_nearest_neighbors']
+    n = [z3.Int('n0'), z3.Int('n1')]
+    ws = wrappers(n)
+    for w in ws:
+        w.attrs['gid'] = C17.carr('gid')
+    events = []
+    nbrs = NbrsModel(events)
+    cells_seen, boxes_seen = [], []
+    hmax_level = z3.Real('hmax_level')
+    Hdiv = z3.Int('H_subdivision')
+    rs = z3.Real('rs')
+    level = SymObject(None, dict(
+        number_of_particles=Native(lambda e, st, a, k, nd: z3.Int('n_lvl')),
+        get=Native(lambda e, st, a, k, nd: None)), 'hash_level')
+
+    class Levels(object):
+        def vc_getitem(self, idx, ex, st, node):
+            return level
+
+        def vc_clone(self, memo, _c=None):
+            return self
+    obj = SymObject(cls, dict(
+        src=ws[1], dst=ws[0], pa_wrappers=ws, radius_scale=rs,
+        radius_scale2=z3.Real('rs2'), sort_gids=False, src_index=1,
+        dst_index=0, num_levels=z3.Int('num_levels'), H=Hdiv,
+        current_hash=Levels(), current_cells=('cells',),
+        xmin=C17.carr('xmin', length=z3.IntVal(3), elem='real')), 'self')
+    obj.module = m
+    obj.attrs['_get_h_max'] = Native(lambda e, st, a, k, nd: hmax_level)
+
+    def nb(e, st, a, k, nd):
+        boxes_seen.append((list(st.pc), a[-1]))
+        return z3.Int('num_boxes')
+    obj.attrs['_neighbor_boxes'] = Native(nb)
+
+    def cellid(e, st, a, k, nd):
+        cells_seen.append((list(st.pc), a[3]))
+        for b in a[4:7]:
+            if isinstance(b, list):
+                b[0] = S.fresh('cell', 'int')
+    ex = AbstractExecutor(repo, m, qualname=cls + '.find_nearest_neighbors',
+                          int_names=index_names(fn), inline=set())
+    ex.spec_env['UINT_MAX'] = UINT_MAX
+    ex.spec_env['norm2'] = _FuncRef(pxd, pxd.functions['norm2'])
+    ex.spec_env['find_cell_id_raw'] = Native(cellid)
+    ex.spec_env['fmax'] = Native(lambda e, st, a, k, nd: z3.If(
+        S.to_real(a[0]) >= S.to_real(a[1]), S.to_real(a[0]),
+        S.to_real(a[1])))
+
+    def ceil_c(e, st, a, k, nd):
+        c = S.fresh('ceil', 'int')
+        v = S.to_real(a[0])
+        st.pc.append(z3.And(z3.ToReal(c) - 1 < v, v <= z3.ToReal(c)))
+        return c
+    ex.spec_env['ceil'] = Native(ceil_c)
+    ex.spec_env['malloc'] = Native(lambda e, st, a, k, nd: ('buffer',))
+    ex.spec_env['free'] = Native(lambda e, st, a, k, nd: None)
+    ex.spec_env['sizeof_type'] = 4
+    try:
+        ex.exec_function(fn, dict(self=obj, nbrs=nbrs, d_idx=z3.Int('d_idx')),
+                         State(pc=[hmax_level > 0, Hdiv >= 1, rs > 0]))
+    except VCError as e:
+        ctx.outside('shreach', str(e))
+        return
+    ctx.function(m, fn, cls + '.find_nearest_neighbors (reach per level)',
+                 set('abstracted: ' + a_ for a_ in ex.abstracted[:20]))
+    obs = [Obligation('shreach.calls_observed', [], z3.BoolVal(
+        len(cells_seen) >= 1 and len(boxes_seen) >= 1), W_)]
+    hq = None
+    for pc_, csz in cells_seen:
+        obs.append(Obligation('shreach.cell_size_of_the_level', pc_ + [
+            hmax_level > 0, Hdiv >= 1], S.to_real(csz) == hmax_level /
+            z3.ToReal(Hdiv), W_))
+    hsym = z3.Real('h_query_any')
+    for q, (pc_, layers) in enumerate(boxes_seen):
+        # radius_scale*h of the query: whatever real the code read into `h`
+        # -- the obligation must hold for the value on the path; the path
+        # condition ties `layers` to it through the ceil model
+        lay = S.to_real(layers)
+        goal = z3.And(lay * (hmax_level / z3.ToReal(Hdiv)) >= hmax_level)
+        obs.append(Obligation('shreach.layers_cover_the_level_radius.%d' % q,
+                              pc_ + [hmax_level > 0, Hdiv >= 1], goal, W_))
+        # and the query's own radius: find the fmax term in the path
+        # condition's ceil constraint
+        terms = []
+        for c_ in pc_:
+            for t_ in _subterms_z3(c_):
+                if z3.is_app(t_) and t_.decl().kind() == z3.Z3_OP_ITE:
+                    terms.append(t_)
+        ok_r = bool(terms)
+        obs.append(Obligation('shreach.radius_term_found.%d' % q, [],
+                              z3.BoolVal(ok_r), W_))
+        for t_ in terms[:1]:
+            obs.append(Obligation(
+                'shreach.layers_cover_the_needed_radius.%d' % q,
+                pc_ + [hmax_level > 0, Hdiv >= 1],
+                lay * (hmax_level / z3.ToReal(Hdiv)) >= t_, W_))
+    ctx.prove('shreach.layers_searched_cover_the_search_radius',
+              z3only(obs, 60000), use_nf=False,
+              replay=replay_oracle(['hvar', 'hdiff'], algs=(
+                  'StratifiedHashNNPS',), knobs=True))
+
+
+def _subterms_z3(t, seen=None):
+    seen = set() if seen is None else seen
+    if t.get_id() in seen:
+        return
+    seen.add(t.get_id())
+    yield t
+    for c in t.children():
+        for x in _subterms_z3(c, seen):
+            yield x
+
+
+# ---------------------------------------------------------------- pidslices
+def task_pidslices(ctx, repo):
+    """Parallel octree build, first level (_c_build_tree_level1 of Octree and
+    CompressedOctree): one pass of the child-creation loop for an arbitrary
+    octant.  A non-empty octant gets the slice [c, c + count) of self.pids:
+    start_index = c, num_particles = count, the write cursor of the octant
+    becomes c, and c advances by count ON EVERY PATH (leaf child or not), so
+    the slices of the children are disjoint and contiguous; an empty octant
+    changes nothing."""
+    m = repo.cython_module(OCT_PYX)
+    W_ = m.path
+    obs = []
+    for cname in ('Octree', 'CompressedOctree'):
+        fn = m.methods(cname).get('_c_build_tree_level1')
+        if fn is None:
+            obs.append(Obligation('pidslices.%s.present' % cname, [],
+                                  z3.BoolVal(False), W_))
+            continue
+        # the innermost loop whose body assigns new_node.start_index
+        body = None
+        for lp in ast.walk(fn):
+            if isinstance(lp, ast.For) and any(
+                    isinstance(st_, ast.Assign) and
+                    ast.unparse(st_.targets[0]) == 'new_node.start_index'
+                    for st_ in lp.body):
+                body = lp.body
+        if body is None:
+            obs.append(Obligation('pidslices.%s.loop_found' % cname, [],
+                                  z3.BoolVal(False), W_))
+            continue
+        ctx.function(m, fn, '%s._c_build_tree_level1 (child-creation pass)'
+                     % cname)
+        for (i, j, k) in [(a, b, c_) for a in (0, 1) for b in (0, 1)
+                          for c_ in (0, 1)]:
+            oct_id = k + 2 * j + 4 * i
+            count0 = [z3.Int('count%d' % q) for q in range(8)]
+            c0 = z3.Int('c_cursor')
+            made = []
+
+            def new_node(e, st, a, kw, nd):
+                nn = SymObject(None, dict(start_index=None,
+                                          num_particles=None, is_leaf=False,
+                                          xmin=[None] * 3, xmax=[None] * 3),
+                               'new_node%d' % len(made))
+                made.append(nn)
+                return nn
+            pushed = []
+            me = SymObject(cname, dict(
+                leaf_max_particles=z3.Int('leaf_max'),
+                _new_node=Native(new_node),
+                _get_eps=Native(lambda e, st, a, kw, nd: z3.Real('eps_new'))),
+                'self')
+            me.module = m
+            node = SymObject(None, dict(children=[None] * 8), 'node')
+            env = dict(
+                self=me, i=i, j=j, k=k, c=c0, count=list(count0), node=node,
+                xmin=[z3.Real('xmin%d' % q) for q in range(3)],
+                xmin_new=[None] * 3 if cname == 'Octree' else [
+                    [z3.Real('xmn%d_%d' % (q, r)) for r in range(3)]
+                    for q in range(8)],
+                xmax_new=[[z3.Real('xMn%d_%d' % (q, r)) for r in range(3)]
+                          for q in range(8)],
+                eps=z3.Real('eps'),
+                length=z3.Real('length'), length_padded=z3.Real('lpad'),
+                hmax_children=[z3.Real('hmaxc%d' % q) for q in range(8)],
+                next_level_nodes=SymObject(None, dict(push_back=Native(
+                    lambda e, st, a, kw, nd: pushed.append(a[0]))), 'next'),
+                # CompressedOctree keeps the tight boxes of the children
+                xmin_children=[[z3.Real('xmc%d_%d' % (q, r)) for r in
+                                range(3)] for q in range(8)],
+                xmax_children=[[z3.Real('xMc%d_%d' % (q, r)) for r in
+                                range(3)] for q in range(8)],
+                xmin_current=[z3.Real('xcur%d' % q) for q in range(3)],
+                xmax_current=[z3.Real('xCur%d' % q) for q in range(3)],
+                length_current=z3.Real('lcur'), oct_id=oct_id, new_node=None,
+                eps_new=None, depth_child=z3.Int('depth_child'),
+                num_threads=z3.Int('nthr'))
+            ex = Executor(repo, m, qualname='%s._c_build_tree_level1' % cname,
+                          merge=False, prune=True)
+            ex.spec_env['EPS_MAX'] = z3.Real('EPS_MAX')
+            ex.spec_env['fmax'] = Native(lambda e, st, a, kw, nd: z3.If(
+                S.to_real(a[0]) >= S.to_real(a[1]), S.to_real(a[0]),
+                S.to_real(a[1])))
+            st0 = State(pc=[c0 >= 0] + [q >= 0 for q in count0])
+            st0.env = env
+            try:
+                ends = ex.exec_block(body, st0)
+            except VCError as e:
+                ctx.outside('pidslices.%s' % cname, str(e))
+                break
+            tag = 'pidslices.%s.oct%d' % (cname, oct_id)
+            if not ends:
+                obs.append(Obligation(tag + '.nopath', [], z3.BoolVal(False),
+                                      W_))
+            for q, (s1, sig) in enumerate(ends):
+                e1 = s1.env
+                cnew = S.to_z3(e1['c'])
+                nn = e1.get('new_node')
+                if nn is None:
+                    # the empty octant: nothing changes
+                    obs.append(Obligation('%s.%d.empty_octant' % (tag, q),
+                                          s1.pc, z3.And(
+                                              count0[oct_id] == 0,
+                                              cnew == c0), W_))
+                    continue
+                g = [count0[oct_id] != 0,
+                     S.to_z3(nn.attrs['start_index']) == c0,
+                     S.to_z3(nn.attrs['num_particles']) == count0[oct_id],
+                     S.to_z3(e1['count'][oct_id]) == c0,
+                     cnew == c0 + count0[oct_id],
+                     z3.BoolVal(e1['node'].attrs['children'][oct_id] is nn)]
+                g += [S.to_z3(e1['count'][r]) == count0[r]
+                      for r in range(8) if r != oct_id]
+                obs.append(Obligation('%s.%d.slice' % (tag, q), s1.pc,
+                                      z3.And(*g), W_))
+    ctx.prove('pidslices.children_get_disjoint_contiguous_slices',
+              z3only(obs), use_nf=False, replay=replay_oct_threads)
 
 
 # ------------------------------------------------------------------ context
